@@ -366,14 +366,14 @@ Definition pst (s s' : vsock) : Prop :=
   v_state s' = v_state s /\ v_opts s' = v_opts s /\ v_inbox s' = v_inbox s /\
   v_inbox_closed s' = v_inbox_closed s /\ v_transport_pending s' = v_transport_pending s /\
   v_t_recovery_pipe s' = v_t_recovery_pipe s /\ v_now s' = v_now s /\ v_env_now s' = v_env_now s /\
-  v_restart s' = v_restart s.
+  v_restart s' = v_restart s /\ v_rx s' = v_rx s.
 
 Lemma pst_refl : forall s, pst s s.
 Proof. intros s. unfold pst. repeat split. Qed.
 
 Lemma pst_trans : forall a b c, pst a b -> pst b c -> pst a c.
 Proof.
-  unfold pst. intros a b c (A1&A2&A3&A4&A5&A6&A7&A8&A9) (B1&B2&B3&B4&B5&B6&B7&B8&B9).
+  unfold pst. intros a b c (A1&A2&A3&A4&A5&A6&A7&A8&A9&A10) (B1&B2&B3&B4&B5&B6&B7&B8&B9&B10).
   repeat split; congruence.
 Qed.
 
@@ -449,7 +449,7 @@ Qed.
 
 Lemma pst_pimr : forall s s', pst s s' -> pimr s s'.
 Proof.
-  intros s s' (A1&A2&A3&A4&A5&A6&A7&A8&A9). unfold pimr, SC. rewrite A1, A2. repeat split; auto.
+  intros s s' (A1&A2&A3&A4&A5&A6&A7&A8&A9&A10). unfold pimr, SC. rewrite A1, A2. repeat split; auto.
 Qed.
 
 Lemma process_all_incoming_messages_pimr : forall (s : vsock),
